@@ -9,7 +9,7 @@ from ..chains import extract_chains
 from ..core import (AnalysisError, call_attr, call_name, calls_in, dotted, func_params, get_kw, norm, qualname, short)
 from ..driver import Knockout, sub_nth, sub_once
 from ..report import Ctx
-from ..rules import gatesum, hooks, shapes
+from ..rules import gatesum, hooks, shapes, tableau
 from ..rules.hooks import BASE, COMPILERS, DM, STAB
 
 EXPLANATION = (
@@ -43,6 +43,8 @@ def run(ctx: Ctx) -> None:
     rule_init_zero(ctx)
     rule_reset_zero(ctx)
     shapes.rule_kron_layout(ctx)
+    tableau.rule_measure_rowset(ctx)
+    tableau.rule_phase_combine(ctx)
     gatesum.rule_derived_gates(ctx)
     rule_gate_table(ctx)
     ctx.floor("sibling.qindex", 40)
